@@ -196,10 +196,12 @@ func ScaleTwistExtrude3D(sdf SDF2, height, twist float64, scale v2.Vec) SDF3 {
 	s.height = height / 2
 	s.extrude = ScaleTwistExtrude(height, twist, scale)
 	// work out the bounding box
-	bb := sdf.BoundingBox()
-	bb = bb.Extend(Box2{bb.Min.Mul(scale), bb.Max.Mul(scale)})
-	l := bb.maxRadius()
-	s.bb = Box3{v3.Vec{-l, -l, -s.height}, v3.Vec{l, l, s.height}}
+	// The scale acts along the fixed x/y axes on a profile that has been
+	// twisted: a point at the maximum radius can be stretched by either factor.
+	l := sdf.BoundingBox().maxRadius()
+	lx := l * math.Max(1, scale.X)
+	ly := l * math.Max(1, scale.Y)
+	s.bb = Box3{v3.Vec{-lx, -ly, -s.height}, v3.Vec{lx, ly, s.height}}
 	return &s
 }
 
